@@ -256,6 +256,9 @@ class Env:
         self.callbacks.append((ticks(self.loop.time()), which))
         if self.in_callback is not None:
             await self.in_callback(n, which)
+        nested = self.scenario.get("callback_calls", {}).get(n)
+        if nested is not None:
+            await _call(self, nested)           # an application reacting to news with a control call from inside its callback
 
     def subscribe_objects(self):
         """an application subscribes to every AC and zone once they exist"""
